@@ -159,7 +159,7 @@ REGISTRY = {
     "C19": {
         "title": "write-behind is bounded: accepted writes reach the device without explicit flush",
         "teq": [
-            {"engine": "lag", "quick": {"n": 1}, "thorough": {"tier": "thorough"}, "oracle": True, "mismatch_is_failure": True, "timeout": 3400,
+            {"engine": "lag", "quick": {"n": 2}, "thorough": {"tier": "thorough"}, "oracle": True, "mismatch_is_failure": True, "timeout": 3400,
              "nontrivial": lambda case, res: res.startswith("ok") and "keys=-" not in res,
              "distinct_key": lambda case, res: res,
              "what": "child processes pinned (taskset) to 1,2,3,4,6,8,12 or 16 CPUs -- which fixes how many write-buffer shards and workers the store builds -- run workloads over 8-400 keys (so every shard is touched), small ones and bursts of 600-1500 calls, that never call flush and never close; after 3-3.5 s of waiting, idle or with a neighbour thread that keeps writing other keys, the process is killed. The device image rebuilt from the H1 trace with ONLY the writes covered by a successful fsync must reopen (real code, fresh process) with every key at the state it had before the wait (window oracle, the wait counts as the acknowledgement) and must equal Model.Recovery.open_image; in idle runs the image must also hold no un-retired superseded or deleted generation"},
